@@ -1,5 +1,6 @@
 import RootSim.Proofs.Stats
 import RootSim.Proofs.StatsLoop
+import RootSim.Proofs.StatsLoopInv
 /-!
 # C20 — the statistics file
 
@@ -14,10 +15,16 @@ Proved here, for all data / all runs of the accounting machine (no bound on size
 `file_undone_le_forward`, `gvt_column`, `gvt_column_nondecreasing`, `node_count_eq_thread0`,
 `file_wf`/`file_roundtrip`.
 
-**Not a theorem of the pinned tree**: "the same number of records for each thread" (finding F6).
-The full statement is kept as `SameRecordCountStatement`; it is *refuted* on the model of the worker
-loop / GVT round / termination test (`same_record_count_counterexample_stop`,
-`same_record_count_counterexample_vote`); what does hold is `node_count_eq_thread0`.
+**"The same number of records for each thread"** depends on the variant of the flush loop of
+`gvt_msg_drain` (`StatsLoop.Cfg.fix6`). The statement is `SameRecordCountStatement fix6`, over the model of the
+worker loop / GVT round / termination test / flush loop (`Model/StatsLoop.lean`: any number of threads, any
+schedule of the atomic blocks):
+* `fix6 = false` (the pinned tree, finding F6): *refuted* (`same_record_count_counterexample_stop`,
+  `same_record_count_counterexample_vote`, `not_same_record_count`); what does hold is `node_count_eq_thread0`
+  and `records_plus_dropped` (a thread lacks exactly the values its flush loop dropped);
+* `fix6 = true` (the flush loop hands the value to `stats_on_gvt`): *proved*, `same_record_count_fixed` (every
+  thread has recorded exactly the rounds that completed) for every execution that returns (`StatsLoop.Returns`:
+  not one that ends in the shutdown deadlock F1).
 -/
 namespace RootSim.C20
 open RootSim.Stats
@@ -356,51 +363,128 @@ theorem file_roundtrip (be : Bool) (lps maxRss : Nat) (ts : List Nat) (l0 : List
     decode (encode d) = .ok d :=
   roundtrip _ (file_wf be lps maxRss ts l0 s0 others h0 hs hlps hrss hts hn hg hlen0 hlen)
 
-/-! ## Same number of records for every thread: FALSE on the pinned tree (finding F6) -/
+/-! ## Same number of records for every thread: false on the pinned tree (finding F6), true with the repair -/
 
 open RootSim.StatsLoop in
-/-- The part of C20 that does not hold: in every terminated execution (all threads have left the
-worker loop and the flush loop of `gvt_msg_drain`) all threads have called `stats_on_gvt` equally often. -/
-def SameRecordCountStatement : Prop :=
-  ∀ (cfg : Cfg) (sched : List Nat),
-    allDone (runFine cfg (init cfg) sched) = true → sameCount (runFine cfg (init cfg) sched) = true
+/-- The part of C20 about the record counts, for the variant `fix6` of the flush loop: in every execution that
+returns (all threads have left the worker loop and the flush loop of `gvt_msg_drain` and stand at its barrier)
+all threads have called `stats_on_gvt` equally often. -/
+def SameRecordCountStatement (fix6 : Bool) : Prop :=
+  ∀ (cfg : Cfg) (sched : List Nat), cfg.fix6 = fix6 →
+    Returns cfg sched → sameCount (runFine cfg (init cfg) sched) = true
 
 open RootSim.StatsLoop in
-/-- **Counter-example 1** (replayed on the real code by the harness, at `VERIF_YIELD` granularity):
+/-- **Counter-example 1** (pinned tree; replayed on the real code by the harness, at `VERIF_YIELD` granularity):
 a model calls `RootsimStop()` while the reducer thread of the current GVT round is inside its batch
 of 64 `process_msg()`: thread 0 ends with one record, thread 1 with none. -/
 theorem same_record_count_counterexample_stop :
-    allDone (runHook stopCfg (initHook stopCfg) stopSched) = true ∧
-    recordCounts (runHook stopCfg (initHook stopCfg) stopSched) = [1, 0] := by decide +kernel
+    allDone (runHook (stopCfg false) (initHook (stopCfg false)) stopSched) = true ∧
+    recordCounts (runHook (stopCfg false) (initHook (stopCfg false)) stopSched) = [1, 0] := by decide +kernel
 
 open RootSim.StatsLoop in
-/-- **Counter-example 2** (plain predicate termination, no `RootsimStop`): the last vote of
+/-- **Counter-example 2** (pinned tree; plain predicate termination, no `RootsimStop`): the last vote of
 `termination_on_gvt` lands between another thread's `gvt_phase_run()` and its loop test:
 thread 0 ends with one record, thread 1 with two. -/
 theorem same_record_count_counterexample_vote :
-    allDone (runFine voteCfg (init voteCfg) voteSched) = true ∧
-    recordCounts (runFine voteCfg (init voteCfg) voteSched) = [1, 2] := by decide +kernel
+    allDone (runFine (voteCfg false) (init (voteCfg false)) voteSched) = true ∧
+    recordCounts (runFine (voteCfg false) (init (voteCfg false)) voteSched) = [1, 2] := by decide +kernel
 
 open RootSim.StatsLoop in
-theorem not_same_record_count : ¬ SameRecordCountStatement := by
+theorem not_same_record_count : ¬ SameRecordCountStatement false := by
   intro h
-  have h1 := h voteCfg voteSched same_record_count_counterexample_vote.1
-  have h2 : sameCount (runFine voteCfg (init voteCfg) voteSched) = false := by decide +kernel
+  have h1 := h (voteCfg false) voteSched rfl same_record_count_counterexample_vote.1
+  have h2 : sameCount (runFine (voteCfg false) (init (voteCfg false)) voteSched) = false := by decide +kernel
   rw [h1] at h2
   exact Bool.noConfusion h2
 
 open RootSim.StatsLoop in
 /-- the two executions are not artefacts of a degenerate configuration: with the same configurations
 a fair alternation of the threads terminates with equal counts -/
-example : allDone (runHook stopCfg (initHook stopCfg) (rep [0, 1] 40)) = true ∧
-    recordCounts (runHook stopCfg (initHook stopCfg) (rep [0, 1] 40)) = [1, 1] := by decide +kernel
+example : allDone (runHook (stopCfg false) (initHook (stopCfg false)) (rep [0, 1] 40)) = true ∧
+    recordCounts (runHook (stopCfg false) (initHook (stopCfg false)) (rep [0, 1] 40)) = [1, 1] := by decide +kernel
 
 open RootSim.StatsLoop in
-/-- with the proposed repair (`repo_patches/f6_flush_round_record.diff`: the flush loop records the
-value instead of dropping it) the same two executions end with equal counts -/
-example : recordCounts (runHook { stopCfg with flushRecords := true } (initHook stopCfg) stopSched) = [1, 1] ∧
-    recordCounts (runFine { voteCfg with flushRecords := true } (init voteCfg) voteSched) = [2, 2] := by
+/-- **Both variants: a thread lacks exactly the values its flush loop dropped.** In every execution that
+returns, every round that was started is over and every thread has been handed its value, in the worker loop
+(recorded) or in the flush loop (recorded iff `fix6`). No bound on threads, rounds or schedule length. -/
+theorem records_plus_dropped (cfg : Cfg) (sched : List Nat) (hret : Returns cfg sched) :
+    (∀ th ∈ (runFine cfg (init cfg) sched).ths,
+      th.records + th.discarded = (runFine cfg (init cfg) sched).sh.completed) ∧
+    (runFine cfg (init cfg) sched).sh.started = (runFine cfg (init cfg) sched).sh.completed :=
+  GInv_final cfg _ (reachable_fine cfg sched) hret
+
+open RootSim.StatsLoop in
+/-- **With the repair every thread holds one record per GVT round.** For every number of threads, every
+configuration (period, `RootsimStop` call, termination votes) and every schedule of the atomic blocks of the
+loop model with `fix6 = true`: if the execution returns, every thread has called `stats_on_gvt` exactly once for
+each round that completed (and no round is left open), hence all threads - thread 0, which also writes the
+node's records (`node_count_eq_thread0`), among them - hold the same number of records. -/
+theorem same_record_count_fixed (cfg : Cfg) (hfix : cfg.fix6 = true) (sched : List Nat) (hret : Returns cfg sched) :
+    (∀ th ∈ (runFine cfg (init cfg) sched).ths, th.records = (runFine cfg (init cfg) sched).sh.completed) ∧
+    (runFine cfg (init cfg) sched).sh.started = (runFine cfg (init cfg) sched).sh.completed ∧
+    sameCount (runFine cfg (init cfg) sched) = true := by
+  have hinv := reachable_fine cfg sched
+  obtain ⟨hall, hcs⟩ := GInv_final cfg _ hinv hret
+  have hrec : ∀ th ∈ (runFine cfg (init cfg) sched).ths,
+      th.records = (runFine cfg (init cfg) sched).sh.completed := by
+    intro th hm
+    have h0 := hinv.2.2.2 hfix th hm
+    have := hall th hm
+    omega
+  exact ⟨hrec, hcs, sameCount_of_all _ _ hrec⟩
+
+open RootSim.StatsLoop in
+/-- the same for the executions the harness replays on the real threads (grants between `VERIF_YIELD` points) -/
+theorem same_record_count_fixed_hook (cfg : Cfg) (hfix : cfg.fix6 = true) (sched : List Nat)
+    (hret : ReturnsHook cfg sched) :
+    (∀ th ∈ (runHook cfg (initHook cfg) sched).ths, th.records = (runHook cfg (initHook cfg) sched).sh.completed) ∧
+    sameCount (runHook cfg (initHook cfg) sched) = true := by
+  have hinv := reachable_hook cfg sched
+  obtain ⟨hall, _⟩ := GInv_final cfg _ hinv hret
+  have hrec : ∀ th ∈ (runHook cfg (initHook cfg) sched).ths,
+      th.records = (runHook cfg (initHook cfg) sched).sh.completed := by
+    intro th hm
+    have h0 := hinv.2.2.2 hfix th hm
+    have := hall th hm
+    omega
+  exact ⟨hrec, sameCount_of_all _ _ hrec⟩
+
+open RootSim.StatsLoop in
+theorem same_record_count_fixed_statement : SameRecordCountStatement true :=
+  fun cfg sched hfix hret => (same_record_count_fixed cfg hfix sched hret).2.2
+
+/-! ### Non-vacuity of `Returns` / `ReturnsHook` for the repaired variant -/
+
+open RootSim.StatsLoop in
+/-- 2 threads, the schedule of counter-example 1: the execution returns; thread 1 adopts the round in its flush
+loop (the pinned variant drops exactly that value: `discarded = [0, 1]`), the repaired variant records it -/
+example : ReturnsHook (stopCfg true) stopSched ∧
+    recordCounts (runHook (stopCfg true) (initHook (stopCfg true)) stopSched) = [1, 1] ∧
+    (runHook (stopCfg false) (initHook (stopCfg false)) stopSched).ths.map (·.discarded) = [0, 1] := by
   decide +kernel
+
+open RootSim.StatsLoop in
+/-- 2 threads, fine-grained schedule of counter-example 2: returns, thread 0 adopts the second round -/
+example : Returns (voteCfg true) voteSched ∧
+    recordCounts (runFine (voteCfg true) (init (voteCfg true)) voteSched) = [2, 2] ∧
+    (runFine (voteCfg false) (init (voteCfg false)) voteSched).ths.map (·.discarded) = [1, 0] ∧
+    (runFine (voteCfg true) (init (voteCfg true)) voteSched).sh.completed = 2 := by
+  decide +kernel
+
+open RootSim.StatsLoop in
+/-- 3 threads: returns; thread 0 records the round in its worker loop, threads 1 and 2 adopt it in their flush
+loops (pinned variant: `[1, 0, 0]` records, `[0, 1, 1]` dropped; repaired variant: `[1, 1, 1]`) -/
+example : ReturnsHook (stop3Cfg true) stop3Sched ∧
+    recordCounts (runHook (stop3Cfg true) (initHook (stop3Cfg true)) stop3Sched) = [1, 1, 1] ∧
+    recordCounts (runHook (stop3Cfg false) (initHook (stop3Cfg false)) stop3Sched) = [1, 0, 0] ∧
+    (runHook (stop3Cfg false) (initHook (stop3Cfg false)) stop3Sched).ths.map (·.discarded) = [0, 1, 1] := by
+  decide +kernel
+
+open RootSim.StatsLoop in
+/-- the hypothesis is not for free: the same 3 threads can end in the shutdown deadlock F1 (thread 0 has started
+a round, the other threads are idle at the barrier and never join it): that execution has not returned after
+200 further grants of thread 0 (it spins in thread phase B) -/
+example : ¬ ReturnsHook (stop3Cfg true) (rep [1, 2] 16 ++ rep [0] 200) := by decide +kernel
 
 /-! ## Non-vacuity -/
 
